@@ -1166,3 +1166,75 @@ pub fn futures_multiqueue_with<RW: QueueRW<T>, T>(
     };
     (ftx, rtx)
 }
+
+#[cfg(multiqueue2_verif)]
+mod verif_layout {
+    use super::*;
+    use crate::verif_hooks::Layout;
+
+    impl<RW: QueueRW<T>, T> MultiQueue<RW, T> {
+        pub fn verif_layout(&self, l: &mut Layout) {
+            l.head = self.head.verif_addr();
+            l.tail_cache = &self.tail_cache as *const AtomicUsize as usize;
+            l.writers = &self.writers as *const AtomicUsize as usize;
+            l.readers = self.tail.verif_addr();
+            l.data = self.data as usize;
+            l.data_stride = mem::size_of::<QueueEntry<T>>();
+            l.refs = self.refs as usize;
+            l.refs_stride = mem::size_of::<RefCnt>();
+            l.capacity = self.capacity as usize;
+            unsafe {
+                let e = &*self.data;
+                l.wraps_off = &e.wraps as *const AtomicUsize as usize - self.data as usize;
+                l.val_off = &e.val as *const T as usize - self.data as usize;
+            }
+            self.manager.verif_layout(l);
+        }
+    }
+
+    impl<RW: QueueRW<T>, T> InnerSend<RW, T> {
+        pub fn verif_layout(&self) -> Layout {
+            let mut l = Layout::default();
+            self.queue.verif_layout(&mut l);
+            l.token = self.token as usize;
+            l
+        }
+    }
+
+    impl<RW: QueueRW<T>, T> InnerRecv<RW, T> {
+        pub fn verif_layout(&self) -> Layout {
+            let mut l = Layout::default();
+            self.queue.verif_layout(&mut l);
+            l.token = self.token as usize;
+            self.reader.verif_layout(&mut l);
+            l
+        }
+    }
+
+    impl<RW: QueueRW<T>, T> FutInnerSend<RW, T> {
+        pub fn verif_layout(&self) -> Layout {
+            let mut l = self.writer.verif_layout();
+            l.wait = &self.wait.parked as *const _ as usize;
+            l.prod_wait = &self.prod_wait.parked as *const _ as usize;
+            l
+        }
+    }
+
+    impl<RW: QueueRW<T>, T> FutInnerRecv<RW, T> {
+        pub fn verif_layout(&self) -> Layout {
+            let mut l = self.reader.verif_layout();
+            l.wait = &self.wait.parked as *const _ as usize;
+            l.prod_wait = &self.prod_wait.parked as *const _ as usize;
+            l
+        }
+    }
+
+    impl<RW: QueueRW<T>, R, F: FnMut(&T) -> R, T> FutInnerUniRecv<RW, R, F, T> {
+        pub fn verif_layout(&self) -> Layout {
+            let mut l = self.reader.verif_layout();
+            l.wait = &self.wait.parked as *const _ as usize;
+            l.prod_wait = &self.prod_wait.parked as *const _ as usize;
+            l
+        }
+    }
+}
